@@ -228,11 +228,17 @@ def check_op(sc, obs, opi, add):
     for prev in sc['ops'][:opi]:
         if prev.get('op') == 'set' and prev.get('what') == 'order_tasks':
             order_eff = bool(prev.get('value'))
-    if order_eff and chunks is not None and full and not numpy_in:
+    if order_eff and chunks is not None and full:
         where = {}
-        for ci, ch in enumerate(chunks):
-            for i in ch:
-                where[i] = ci
+        if numpy_in:
+            # every row block is one task and one chunk; the task function reports the first row of its block
+            for ci, block in enumerate(rows or []):
+                if block:
+                    where[block[0]] = ci
+        else:
+            for ci, ch in enumerate(chunks):
+                for i in ch:
+                    where[i] = ci
         for c in tasks:
             ci = where.get(c[5])
             if ci is not None and c[2] != f'Worker-{ci % n_jobs}':
